@@ -75,6 +75,8 @@ type Op = map[string]any
 type TxnMeta struct {
 	Planted   string // "", "op:<kind>@<pos>", "commit:<kind>"
 	NamedDecl map[string]string
+	// Culprits: positions of the operations planted to make the transaction fail
+	Culprits []int
 }
 
 type touched struct {
@@ -899,12 +901,16 @@ func (g *Gen) Txn() ([]Op, TxnMeta) {
 		if bad, kind := g.commitViolation(); bad != nil {
 			pos := g.pick(len(ops) + 1)
 			ops = append(ops[:pos:pos], append(bad, ops[pos:]...)...)
+			for k := range bad {
+				meta.Culprits = append(meta.Culprits, pos+k)
+			}
 			meta.Planted = "commit:" + kind
 		}
 	} else if g.chance(g.prof.FailPermil) {
 		bad, kind := g.failingOp()
 		pos := g.pick(len(ops) + 1)
 		ops = append(ops[:pos:pos], append([]Op{bad}, ops[pos:]...)...)
+		meta.Culprits = []int{pos}
 		meta.Planted = fmt.Sprintf("op:%s@%d", kind, pos)
 	}
 	meta.NamedDecl = g.decl
